@@ -48,6 +48,7 @@ type verifTracer struct {
 	// package level only: messages sent but whose receive has not been logged yet
 	unreceived map[verifSender]int
 	msgSender  map[verifNode]verifSender
+	started    map[verifNode]bool
 }
 
 var (
@@ -76,6 +77,7 @@ func (t *verifTracer) reset() {
 	t.nodes = map[action]verifNode{}
 	t.unreceived = map[verifSender]int{}
 	t.msgSender = map[verifNode]verifSender{}
+	t.started = map[verifNode]bool{}
 	t.buf.Reset()
 }
 
@@ -229,6 +231,9 @@ func (t *verifTracer) ev(kind string, a, b action, extra int, locked bool) {
 			}
 		}
 	}
+	if kind == "start" {
+		t.started[na] = true
+	}
 	fmt.Fprintf(&t.buf, "ev %d %s %d %d %d\n", na.lvl, kind, na.id, nb.id, extra)
 	if t.buf.Len() > 1<<12 {
 		t.flush()
@@ -327,15 +332,30 @@ func verifDecEnd(a, t action, last bool) {
 		verifT.mu.Unlock()
 	}
 	if verifYieldOn && !last && a.IsFailed() && verifName(t) != "ROOT" {
-		// a failed action has told a dependent that still waits for other dependencies: hold it here for a while,
-		// so that the dependent is started by one of its other dependencies while this handler is between the
-		// decrement and whatever it does next
+		// A failed action has told a dependent that still waits for other dependencies. Hold the handler here,
+		// between the decrement and whatever it does next, until the dependent has been started by one of its
+		// other dependencies (when tracing; bounded), or for a seeded while (otherwise: no synchronisation is
+		// added, so that a -race build still sees the scheduler's own ordering only).
+		if verifTraceOn {
+			deadline := time.Now().Add(5 * time.Second)
+			for time.Now().Before(deadline) && !verifT.hasStarted(t) {
+				time.Sleep(2 * time.Millisecond)
+			}
+			return
+		}
 		h := fnv.New64a()
 		fmt.Fprintf(h, "%d/fail/%s/%s", verifSeedVal, verifName(a), verifName(t))
 		time.Sleep(200*time.Millisecond + time.Duration(h.Sum64()%700)*time.Millisecond)
 		return
 	}
 	verifYield(9, t)
+}
+
+func (t *verifTracer) hasStarted(a action) bool {
+	t.mu.Lock()
+	defer t.mu.Unlock()
+	n, ok := t.nodes[a]
+	return !ok || t.started[n]
 }
 
 // verifEnqueue is called immediately before the send.
